@@ -126,7 +126,8 @@ func c08(c *ctx) {
 			}(),
 			ActionCode: func(id int) string {
 				a := actions[(id+ii)%len(actions)]
-				if hasCap && (id+ii)%4 == 0 {
+				if (hasCap || ii%2 == 0) && (id+ii)%4 == 0 {
+					// (text is read also in grammars without any capture: it is the empty string there)
 					a = "p.N += len(text)"
 				}
 				return a
@@ -352,7 +353,7 @@ func c08(c *ctx) {
 	requireCov(c, "packages_ok", "grammars_many", "grammars_no", "grammars_surface", "grammars_profile", "grammars_warned")
 	c.run.Rule = "cases: grammars from all profiles plus a surface profile (user imports single/several/grouped/aliased/duplicating runtime imports/aliased with the package's own name/sorting differently with and without alias — each used by the parser state so that they are needed; header comments with # and // and blank-line runs; state with nested braces; literals and classes over NUL, control, quote, bracket, dash, caret, backslash, Latin-1, U+2028, non-BMP and U+10FFFF characters; actions, state changes and predicates containing /* */ and // comments, predicates over several lines, state changes that declare variables, ranges spanning the surrogate block as a -switch case, '*/' in strings, nested braces, raw strings; grammars without any terminal; captures nobody reads; actions without capture; grammars accepted with warnings only: unused rules, undefined names, left recursion) and grammars of 130-430 rules plus exact boundary sizes (126-128 rules = 253-257 rule ids; more in thorough) (x1-3 actions each: beyond 255 rule ids; in the thorough tier one 33 000-rule grammar with 66 001 rule ids is generated and checked for syntax, 32-bit rule type and gofmt form but not compiled — the Go compiler needs hours for it); each generated with the real peg under all eight -inline/-switch/-noast combinations. " +
 		"Oracle: exit 0, empty stderr (warnings only for the warned kind), the file compiles together with a file that uses the public API, and go/format.Source(file) == file. distinct_nontrivial = distinct emitted files (sha256 below the header line, package name normalised) that passed; the same grammar often yields the same file under several option sets."
-	c.run.Assume("rule names R<n>/H<n>..., actions are valid Go; predicates are Go expressions, possibly spread over several lines and with /* */ or // comments; actions use text only in grammars with a capture")
+	c.run.Assume("rule names R<n>/H<n>..., actions are valid Go; predicates are Go expressions, possibly spread over several lines and with /* */ or // comments")
 }
 
 func firstDiff(a, b []byte) string {
